@@ -354,6 +354,16 @@ func registerLib(e *Engine) {
 		s.assume(eq(r, ex))
 		return []Val{{T: boolT, S: r}}
 	}
+	for name, bound := range map[string]float64{"(time.Duration).Hours": 2.6e6, "(time.Duration).Minutes": 1.6e8, "(time.Duration).Seconds": 9.3e9} {
+		bound := bound
+		name := name
+		L[name] = func(s *State, site ssa.Instruction, args []Val) []Val {
+			s.used(name + ": a finite float64 bounded by the int64 nanosecond range")
+			r := s.freshVal(types.Typ[types.Float64], "dur")
+			s.assume(and(app("fp.leq", fpLit(-bound), r.S), app("fp.leq", r.S, fpLit(bound))))
+			return []Val{r}
+		}
+	}
 	for _, n := range []string{"(*sync.WaitGroup).Add", "(*sync.WaitGroup).Done", "(*sync.WaitGroup).Wait"} {
 		L[n] = func(s *State, site ssa.Instruction, args []Val) []Val { return nil }
 	}
